@@ -194,7 +194,7 @@ def execute(case, stats, log):
         if ev["ev"] == "build":
             # a forced/regenerated build creates a NEW generator with the same seed: the
             # statement says it must give the same values (clause 3), so realizations persist.
-            log.append([i, "build", var, out["x"].name])
+            log.append([i, "build", var, m.nm(out["x"].name)])
             continue
         pairs = []
         if ev["ev"] == "compute":
